@@ -322,6 +322,7 @@ func (ex *Exec) runPath(h *Harness, prefix []int32) (reason string) {
 	ex.res = pathResult{siteReach: map[string]int{}, siteSym: map[string]int{}, unsupported: map[string]int{}, funcs: map[string]int{}, stubs: map[string]int{}}
 	ex.pending = nil
 	ex.snaps = nil
+	ex.panics = nil
 	ex.syncMaps = nil
 	ex.fs = nil
 	ex.streams = nil
